@@ -3,9 +3,9 @@ package resplife
 import (
 	"bufio"
 	"context"
-	"io"
 	"errors"
 	"fmt"
+	"io"
 	"sort"
 	"strconv"
 	"strings"
@@ -85,6 +85,8 @@ func (r *runner) handle(n note) {
 		n.wk.state = "L"
 	case "hook":
 		n.wk.state = "H"
+	case "prefinish":
+		n.wk.state = "F"
 	case "done":
 		e.mu.Lock()
 		n.wk.state = "D"
@@ -377,7 +379,7 @@ func (r *runner) sync() {
 func (r *runner) waitWorker(w *worker) bool {
 	pred := func(n note) bool {
 		switch n.kind {
-		case "loader", "hook", "done":
+		case "loader", "hook", "done", "prefinish":
 			return n.wk == w
 		case "blocked":
 			return n.ba.party == w
@@ -430,7 +432,7 @@ func (r *runner) opStep(wi int) string {
 		return "bad"
 	}
 	w := e.workers[wi]
-	if w.state != "L" && w.state != "H" {
+	if w.state != "L" && w.state != "H" && w.state != "F" {
 		return "bad"
 	}
 	if w.state == "L" {
@@ -533,7 +535,9 @@ func (r *runner) snapshot() string {
 			sort.Strings(act)
 			sort.Strings(pend)
 			fmt.Fprintf(&sb, "p%d[%s|a:%s|q:%s]", p, strings.Join(ss, ","), strings.Join(act, ","), strings.Join(pend, ","))
-			r.checkAgree(p, ps)
+			if r.quiescentWorkers() {
+				r.checkAgree(p, ps)
+			}
 		}
 	}
 	sb.WriteString(" pr:" + strings.Join(e.conn.snapshot(), ","))
@@ -564,6 +568,17 @@ func (r *runner) snapshot() string {
 }
 
 // ---------------------------------------------------------------- oracles (from the property text)
+
+// quiescentWorkers: no executor is between its last transaction and FinishTask (state F: "FinishTask in
+// flight") or waiting for the manager (M); parked in a loader / hook / reservation is quiescent
+func (r *runner) quiescentWorkers() bool {
+	for _, w := range r.e.workers {
+		if w.state == "F" || w.state == "M" || w.state == "R" {
+			return false
+		}
+	}
+	return true
+}
 
 // C23: at a quiescent barrier, Queued <-> pending, Running <-> active, Paused/CompletingSend in neither
 func (r *runner) checkAgree(p int, ps peerstate.PeerState) {
@@ -723,6 +738,7 @@ func (r *runner) opEnd() string {
 	alloc := e.alloc.inner.Stats()
 	prot := e.conn.snapshot()
 	quiet := r.nothingLeft(pss)
+	r.checkWorkAccounting(pss, left)
 	res := fmt.Sprintf("end quiet=%v left=%d prot=%d active=%d pending=%d alloc=%d", quiet, left, len(prot), stats.Active, stats.Pending, alloc.TotalAllocatedAllPeers)
 	if !quiet {
 		r.out.Cov("end.incomplete")
@@ -758,6 +774,38 @@ func (r *runner) opEnd() string {
 		r.fail("alloc-nonzero", "all requests ended and every message resolved but the allocator still accounts %d bytes", alloc.TotalAllocatedAllPeers)
 	}
 	return res
+}
+
+// C21 (work accounting of the REAL task queue behind the real response manager):
+//   - once every request is retired and no worker is alive, the queue holds no active or pending work;
+//   - an accepted request that is still Queued is eventually executed: when no worker is alive, nothing is
+//     frozen any more and the queue still refuses to hand out the pending task, it never will.
+func (r *runner) checkWorkAccounting(pss []peerstate.PeerState, left int) {
+	e := r.e
+	for _, w := range e.workers {
+		if w.state != "D" {
+			return
+		}
+	}
+	st := e.tq.Stats()
+	if left == 0 && (st.Active != 0 || st.Pending != 0) {
+		r.fail(r.dupClass("c21-phantom-active"), "every request is retired and no task worker is running, but the task queue reports active=%d pending=%d", st.Active, st.Pending)
+	}
+	if st.Pending > 0 && len(r.blockedAlloc) == 0 && !r.mgrBlocked {
+		for i := 0; i < 8; i++ {
+			e.tq.PeerTaskQueue.ThawRound()
+		}
+		if _, tasks, _ := e.tq.PeerTaskQueue.PopTasks(1); len(tasks) == 0 {
+			var ids []string
+			for _, ps := range pss {
+				for _, id := range ps.Pending {
+					ids = append(ids, fmt.Sprintf("r%d", e.idIndex(id)))
+				}
+			}
+			sort.Strings(ids)
+			r.fail(r.dupClass("c21-never-executed"), "no task worker is running and no peer is frozen, yet the task queue hands out none of its %d pending task(s) %v (active=%d): these requests are never executed", st.Pending, ids, st.Active)
+		}
+	}
 }
 
 func min1(n int) int {
@@ -811,7 +859,11 @@ func execCase(comp string, c reg.Case, out *reg.Out, autoAck int, baseline *runn
 				out.Line("bad")
 				continue
 			}
-			r.e = newEngine(atoi(op[1]), uint64(atoi(op[2])))
+			maxPer := 0
+			if len(op) > 6 {
+				maxPer = atoi(op[6])
+			}
+			r.e = newEngine(atoi(op[1]), uint64(atoi(op[2])), maxPer)
 			r.leafLen, r.innLen, r.extLen = atoi(op[3]), atoi(op[4]), atoi(op[5])
 			ok := true
 			for p := 0; p < r.e.npeers && ok; p++ {
@@ -938,7 +990,8 @@ func (r *runner) exec(op []string) string {
 		if p < 0 || p >= e.npeers || k != len(e.cfgs) || id > len(e.ids) || id < 0 {
 			return "bad"
 		}
-		cfg := &reqCfg{k: k, id: id, peer: p, pri: pri, hook: op[5][0], n: atoi(op[6]), miss: atoi(op[7]), bh: op[8]}
+		cfg := &reqCfg{k: k, id: id, peer: p, pri: pri, hook: op[5][0], n: atoi(op[6]), miss: atoi(op[7]),
+			bh: strings.ReplaceAll(op[8], "F", ""), parkFinish: strings.Contains(op[8], "F")}
 		if cfg.n < 1 || cfg.n > 8 {
 			return "bad"
 		}
